@@ -504,55 +504,96 @@ def getContainerElement (ens : Option String) (root : XmlNode) (name : String) :
     | [e] => .ok e
     | _ => .error .value
 
+/-- The restriction criteria of a `BaseContainer` element (none when there is no `RestrictionCriteria`). -/
+def loadRestriction (ens : Option String) (bc : XmlNode) : LoadM (List Criterion) :=
+  match findFirst ens [step "RestrictionCriteria"] bc with
+  | none => .ok []
+  | some rc =>
+    match findFirst ens [step "ComparisonList"] rc with
+    | some l => match l.elems.mapM loadComparison with
+      | .ok cs => .ok (cs.map Criterion.comparison)
+      | .error e => .error e
+    | none => match findFirst ens [step "Comparison"] rc with
+      | some c => match loadComparison c with
+        | .ok c => .ok [Criterion.comparison c]
+        | .error e => .error e
+      | none => match findFirst ens [step "BooleanExpression"] rc with
+        | some b => match loadBoolExpr ens b with
+          | .ok e => .ok [Criterion.boolExpr e]
+          | .error e => .error e
+        | none => match findFirst ens [step "CustomAlgorithm"] rc with
+          | some _ => .error .other
+          | none => .error .value
+
+abbrev ContRec := CLookup → XmlNode → LoadM (LContainer × CLookup)
+
+/-- The `BaseContainer` part of `SequenceContainer.from_xml`: criteria, the base container's name, and the base
+    container itself parsed first (through `rec`) when it is not in the lookup yet. -/
+def loadBaseWith (ens : Option String) (root : XmlNode) (rec : ContRec) (lookup : CLookup) (x : XmlNode) :
+    LoadM (Option String × List Criterion × CLookup) :=
+  match findFirst ens [step "BaseContainer"] x with
+  | none => .ok (none, [], lookup)
+  | some bc =>
+    match loadRestriction ens bc with
+    | .error e => .error e
+    | .ok crit =>
+      match bc.attr! "containerRef" with
+      | .error e => .error e
+      | .ok ref =>
+        match getContainerElement ens root ref with
+        | .error e => .error e
+        | .ok bEl =>
+          match bEl.attr! "name" with
+          | .error e => .error e
+          | .ok bName =>
+            if lookup.any (·.1 == bName) then .ok (some bName, crit, lookup)
+            else match rec lookup bEl with
+              | .error e => .error e
+              | .ok (b, lk) => .ok (some bName, crit, lk.set b.name b)
+
+/-- One child of the `EntryList`: a parameter reference, a container reference (parsed through `rec` when new),
+    or anything else (ignored). -/
+def loadEntryWith (ens : Option String) (root : XmlNode) (params : List (String × LParam)) (rec : ContRec)
+    (acc : List LEntry × CLookup) (entry : XmlNode) : LoadM (List LEntry × CLookup) :=
+  if entry.tag == "ParameterRefEntry" then
+    match entry.attr! "parameterRef" with
+    | .error e => .error e
+    | .ok pn =>
+      if !(params.any (·.1 == pn)) then .error .other              -- KeyError
+      else .ok (acc.1 ++ [LEntry.param pn], acc.2)
+  else if entry.tag == "ContainerRefEntry" then
+    match entry.attr! "containerRef" with
+    | .error e => .error e
+    | .ok cn =>
+      if acc.2.any (·.1 == cn) then .ok (acc.1 ++ [LEntry.cont cn], acc.2)
+      else match getContainerElement ens root cn with
+        | .error e => .error e
+        | .ok nEl => match rec acc.2 nEl with
+          | .error e => .error e
+          | .ok (nc, lk2) => .ok (acc.1 ++ [LEntry.cont nc.name], lk2.set nc.name nc)
+  else .ok acc
+
 /-- `SequenceContainer.from_xml` (recursive: base containers and nested containers not yet in the lookup are
     parsed first and stored). `fuel` bounds the recursion; cycles exhaust it (`RecursionError` in Python). -/
 def loadContainer (ens : Option String) (root : XmlNode) (params : List (String × LParam)) :
     Nat → CLookup → XmlNode → LoadM (LContainer × CLookup)
   | 0, _, _ => .error .other                         -- RecursionError: a rejection at load time
-  | fuel + 1, lookup, x => do
-    -- base container
-    let (baseName, criteria, lookup) ← match findFirst ens [step "BaseContainer"] x with
-      | none => pure (none, [], lookup)
-      | some bc => do
-        let crit ← match findFirst ens [step "RestrictionCriteria"] bc with
-          | some rc =>
-            match findFirst ens [step "ComparisonList"] rc with
-            | some l => do pure ((← l.elems.mapM loadComparison).map Criterion.comparison)
-            | none => match findFirst ens [step "Comparison"] rc with
-              | some c => do pure [Criterion.comparison (← loadComparison c)]
-              | none => match findFirst ens [step "BooleanExpression"] rc with
-                | some b => do pure [Criterion.boolExpr (← loadBoolExpr ens b)]
-                | none => match findFirst ens [step "CustomAlgorithm"] rc with
-                  | some _ => throw Err.other
-                  | none => throw Err.value
-          | none => pure []
-        let bEl ← getContainerElement ens root (← bc.attr! "containerRef")
-        let bName ← bEl.attr! "name"
-        let lookup ← if lookup.any (·.1 == bName) then pure lookup
-          else do
-            let (b, lk) ← loadContainer ens root params fuel lookup bEl
-            pure (lk.set b.name b)
-        pure (some bName, crit, lookup)
-    -- entry list
-    let el ← match findFirst ens [step "EntryList"] x with | some e => pure e | none => throw Err.other
-    let (entries, lookup) ← el.elems.foldlM (fun (acc : List LEntry × CLookup) entry => do
-      let (es, lk) := acc
-      if entry.tag == "ParameterRefEntry" then
-        let pn ← entry.attr! "parameterRef"
-        if !(params.any (·.1 == pn)) then throw Err.other       -- KeyError
-        pure (es ++ [LEntry.param pn], lk)
-      else if entry.tag == "ContainerRefEntry" then
-        let cn ← entry.attr! "containerRef"
-        if lk.any (·.1 == cn) then pure (es ++ [LEntry.cont cn], lk)
-        else do
-          let nEl ← getContainerElement ens root cn
-          let (nc, lk2) ← loadContainer ens root params fuel lk nEl
-          pure (es ++ [LEntry.cont nc.name], lk2.set nc.name nc)
-      else pure (es, lk)) ([], lookup)
-    let ld := (findFirst ens [step "LongDescription"] x).bind (·.text)
-    let name ← x.attr! "name"
-    pure ({ name := name, entries := entries, shortDesc := x.attr? "shortDescription", longDesc := ld,
-            base := baseName, criteria := criteria, abstract := boolAttr x "abstract" false }, lookup)
+  | fuel + 1, lookup, x =>
+    match loadBaseWith ens root (loadContainer ens root params fuel) lookup x with
+    | .error e => .error e
+    | .ok (baseName, criteria, lookup) =>
+      match findFirst ens [step "EntryList"] x with
+      | none => .error .other
+      | some el =>
+        match el.elems.foldlM (loadEntryWith ens root params (loadContainer ens root params fuel)) ([], lookup) with
+        | .error e => .error e
+        | .ok (entries, lookup) =>
+          match x.attr! "name" with
+          | .error e => .error e
+          | .ok name =>
+            .ok ({ name := name, entries := entries, shortDesc := x.attr? "shortDescription",
+                   longDesc := (findFirst ens [step "LongDescription"] x).bind (·.text),
+                   base := baseName, criteria := criteria, abstract := boolAttr x "abstract" false }, lookup)
 
 end Spp
 
